@@ -306,7 +306,35 @@ func applyEdits(r *Rand, old *dbSchema, k int) (*dbSchema, []string) {
 			}
 			return false
 		}
-		switch r.Intn(10) {
+		switch r.Intn(12) {
+		case 10: // the key moves to a column added in the same step; the old key columns stay as plain columns
+			ok := true
+			for _, c := range t.Cols {
+				if c.PK && (c.RefT != "" || c.Auto || referenced(t.Name, c.Name)) {
+					ok = false
+				}
+			}
+			nm := fmt.Sprintf("sk%d", r.Intn(1000))
+			if ok && !findColIn(t, nm) {
+				for ci := range t.Cols {
+					t.Cols[ci].PK = false
+				}
+				t.Cols = append(t.Cols, dbCol{Name: nm, PK: true, Sysl: "int", Ty: "integer"})
+				kinds = append(kinds, "key-moves-to-added-column")
+			}
+		case 11: // the table loses its key altogether (a later step may give it one on an existing column)
+			ok := true
+			for _, c := range t.Cols {
+				if c.PK && (c.RefT != "" || c.Auto || referenced(t.Name, c.Name)) {
+					ok = false
+				}
+			}
+			if ok {
+				for ci := range t.Cols {
+					t.Cols[ci].PK = false
+				}
+				kinds = append(kinds, "drop-key")
+			}
 		case 9: // several columns added to one table in one step, references among them
 			n := 2 + r.Intn(2)
 			added := 0
